@@ -80,6 +80,14 @@ def gen_cases(tier, seed):
                     dims=r.choice([(2, 2), (3, 3)]), cost=10 + 20 * order)
         add(variant=variant, singles=False, q='ev', order=2, k=2, dims=(2, 2),
             cost=60)
+        # two-particle operator at the odd orders (first-order doubles couple
+        # to the reference through a two-particle operator)
+        add(variant=variant, singles=False, q='ev', order=1, k=2, dims=(2, 2),
+            cost=20)
+        add(variant=variant, singles=True, q='ev', order=1, k=2, dims=(2, 2),
+            cost=20)
+        add(variant=variant, singles=False, q='ev', order=3, k=2, dims=(2, 2),
+            cost=150)
         # norm factor / overlap series incl. the orders where a factor occurs twice
         for singles in (False, True):
             for order in range(2, 6):
@@ -191,6 +199,11 @@ def run_case(case, res):
         res.count('points_compared', int(val.size))
         if variant == 'mp':
             exp = ref.amp_block(order, k) % p
+            if singles and order == 1 and k == 1:
+                # the first-order singles of the model are free parameters
+                # (first_order_singles=True keeps t1 singles as a tensor); the
+                # *formula* amplitude(1, 'ph') is their HF value: zero
+                exp = np.zeros_like(exp)
             nz = int(np.count_nonzero(exp))
             res.nontrivial = nz > 0
             res.count('nonzero_reference_points', nz)
